@@ -7,12 +7,23 @@ package symboltable
 import (
 	"fmt"
 	"math/rand"
+	"sync"
 	"time"
 
 	. "github.com/moorara/algo/generic"
 )
 
-var r = rand.New(rand.NewSource(time.Now().UnixNano()))
+var (
+	r   = rand.New(rand.NewSource(time.Now().UnixNano()))
+	rmu sync.Mutex // guards r, which is shared by all instances
+)
+
+// shuffle is a goroutine-safe wrapper around r.Shuffle.
+func shuffle(n int, swap func(i, j int)) {
+	rmu.Lock()
+	defer rmu.Unlock()
+	r.Shuffle(n, swap)
+}
 
 // SymbolTable represents an unordered symbol table abstract data type.
 type SymbolTable[K, V any] interface {
